@@ -38,3 +38,9 @@ Proof. unfold pad_to. rewrite firstn_length, app_length, repeat_length. lia. Qed
 
 Lemma cstring_pad n s : nul_free s = true -> (length s <= n)%nat -> cstring (pad_to n s) = s.
 Proof. intros H L. rewrite (pad_to_short n s L). now apply cstring_app_nul. Qed.
+
+Lemma skipn_skipn' {A} (x y : nat) (l : list A) : skipn x (skipn y l) = skipn (y + x) l.
+Proof.
+  revert l. induction y as [|y IH]; intros l; [reflexivity|].
+  destruct l as [|a l]; [now rewrite !skipn_nil|]. cbn [skipn Nat.add]. apply IH.
+Qed.
